@@ -308,7 +308,7 @@ func ruleUpstreamSwap(c *Ctx) {
 }
 
 // ruleResetPrunes: each registry's reset drops what is no longer configured.
-func ruleResetPrunes(c *Ctx) {
+func ruleResetPrunes(c *Ctx, only ...string) {
 	type reg struct {
 		pkg, typ, method string
 		wholesale        bool
@@ -321,6 +321,9 @@ func ruleResetPrunes(c *Ctx) {
 		{"location", "Locations", "Set", true},
 	}
 	for _, r := range regs {
+		if len(only) > 0 && !containsStr(only, r.pkg) {
+			continue
+		}
 		fn := c.P.Method(r.pkg, r.typ, r.method)
 		if fn == nil {
 			c.undecided("reset-prunes", r.pkg+"."+r.typ, "-", "reset function not found")
@@ -383,7 +386,21 @@ func ruleResetPrunes(c *Ctx) {
 				}
 			})
 		}
-		c.check(len(bad) == 0, "reset-prunes", name, pos, "util.MapDelete with the predicate 'name not among the new options'", strings.Join(uniq(bad), " || "), 1)
+		// every way through the reset passes the prune: an empty configuration removes everything
+		np := 0
+		c.P.Simulate(fn, SimConfig{MaxVisits: 2}, func(pr *PathResult) {
+			if pr.Exit != "return" {
+				return
+			}
+			np++
+			for _, e := range pr.Events {
+				if e.Kind == "call" && e.Callee != nil && e.Callee.Name() == "MapDelete" {
+					return
+				}
+			}
+			bad = append(bad, "returns without removing the entries that disappeared from the configuration (an empty list must remove all of them) on path ["+condString(pr.Conds)+"]")
+		})
+		c.check(len(bad) == 0, "reset-prunes", name, pos, fmt.Sprintf("util.MapDelete with the predicate 'name not among the new options', on each of %d paths", np), strings.Join(uniq(bad), " || "), 1+np)
 	}
 }
 
@@ -727,12 +744,21 @@ func ruleSectionsApplied(c *Ctx) {
 		} else if startAt < applied["Servers"] {
 			bad = append(bad, "servers are started before the server list is reset")
 		}
+		// what is referred to is in place before what refers to it is published: a location names an upstream,
+		// a server names locations, a cache and a compress profile (requests are served while update() runs)
+		for _, dep := range [][2]string{{"Upstreams", "Locations"}, {"Locations", "Servers"}, {"Caches", "Servers"}, {"Compresses", "Servers"}} {
+			i, ok1 := applied[dep[0]]
+			j, ok2 := applied[dep[1]]
+			if ok1 && ok2 && j < i {
+				bad = append(bad, "the new "+dep[1]+" are published before the "+dep[0]+" they refer to exist: during a reload that introduces a name, requests are answered with pike's own error instead of the upstream's response")
+			}
+		}
 		// locations and upstreams/caches/compress before servers are (re)started
 		if strings.Join(order, ",") != "Compresses,Caches,Upstreams,Locations,Servers" {
 			c.Notes = append(c.Notes, "sections applied in order "+strings.Join(order, ","))
 		}
 	})
-	c.check(len(bad) == 0 && n > 0, "sections-applied", name, pos, fmt.Sprintf("%d paths: compress, caches, upstreams, locations and servers are each reset from the configuration just read, then server.Start()", n), strings.Join(uniq(bad), " || "), n)
+	c.check(len(bad) == 0 && n > 0, "sections-applied", name, pos, fmt.Sprintf("%d paths: compress, caches, upstreams, locations and servers are each reset from the configuration just read, referenced sections before the sections that name them, then server.Start()", n), strings.Join(uniq(bad), " || "), n)
 }
 
 // ruleUpstreamContract (thorough tier, whole-program SSA): re-confirms in the
@@ -891,4 +917,13 @@ func constantInt(k *types.Const) (int64, bool) {
 	var v int64
 	_, err := fmt.Sscan(s, &v)
 	return v, err == nil
+}
+
+func containsStr(xs []string, x string) bool {
+	for _, y := range xs {
+		if y == x {
+			return true
+		}
+	}
+	return false
 }
